@@ -347,6 +347,16 @@ pub fn run(ctx: &Ctx) -> i32 {
         let file = efg_file("contract", &tree, EfgStyle::PLAIN);
         all.push(("contract".into(), Corruption { what: format!("contract violation: {}", what), text: file.text, format: "efg", expect: vec!["game-error", "gambit-error"], explicit_only: false }));
     }
+    // not constant-sum only through an outcome that one node spells out and another references by
+    // number: every path passes the root (sum + 1), only some pass the second node (sum + 2)
+    let by_reference = [
+        ("player nodes", "EFG 2 R \"by reference\" { \"one\" \"two\" }\np \"\" 1 1 \"r\" { \"a\" \"b\" } 1 \"fee\" { 1, 0 }\np \"\" 2 1 \"z\" { \"l\" \"r\" } 1\nt \"\" 2 \"\" { 1, -1 }\nt \"\" 3 \"\" { -1, 1 }\nt \"\" 4 \"\" { 0, 0 }\n"),
+        ("chance node", "EFG 2 R \"by reference\" { \"one\" \"two\" }\np \"\" 1 1 \"r\" { \"a\" \"b\" } 1 \"fee\" { 1, 0 }\nc \"\" 1 \"k\" { \"o0\" 1/2 \"o1\" 1/2 } 1\nt \"\" 2 \"\" { 1, -1 }\nt \"\" 3 \"\" { -1, 1 }\nt \"\" 4 \"\" { 0, 0 }\n"),
+        ("reference first", "EFG 2 R \"by reference\" { \"one\" \"two\" }\np \"\" 1 1 \"r\" { \"a\" \"b\" } 0\np \"\" 2 1 \"z\" { \"l\" \"r\" } 1\nt \"\" 2 \"\" { 1, -1 }\nt \"\" 3 \"\" { -1, 1 }\np \"\" 2 2 \"y\" { \"l\" \"r\" } 1 \"fee\" { 1, 0 }\np \"\" 1 2 \"s\" { \"u\" \"d\" } 1\nt \"\" 4 \"\" { 0, 0 }\nt \"\" 5 \"\" { 2, -2 }\nt \"\" 6 \"\" { 1, -1 }\n"),
+    ];
+    for (what, text) in by_reference {
+        all.push(("by-reference".into(), Corruption { what: format!("not constant-sum through an outcome referenced by number ({})", what), text: text.to_string(), format: "efg", expect: vec!["constant-sum"], explicit_only: false }));
+    }
     ctx.set("files_corrupted", json!(files));
     ctx.set("corruptions", json!(all.len()));
     let mut kinds: std::collections::BTreeMap<String, u64> = Default::default();
